@@ -118,7 +118,7 @@ def gen_program(cases, bom=False):
     for c in cases:
         uid += 1
         r = st.render_case(c, uid)
-        body = "pub fn s%d() {\n    let x = 1; let y = 2;\n" % uid
+        body = "pub fn s%d() {\n    let x = 1; let y = 2; let z = \"root\";\n" % uid
         text = body + r.text + "}\n\n"
         first = line
         line += text.count("\n")
